@@ -87,10 +87,10 @@ def exhaustion_exits(body, loop_blocks):
     return out
 
 
-def run_loops(prog, rep):
+def run_loops(prog, rep, skip=()):
     cands = 0
     for b in prog.by_crate["precis_tools"]:
-        if b.kind != "fn" or b.d.get("in_test"):
+        if b.kind != "fn" or b.d.get("in_test") or b.id in skip:
             continue
         pend = [i for i, l in enumerate(b.locals) if l["ty"] == PENDING_TY and l["name"]]
         if not pend:
@@ -127,7 +127,8 @@ def run_loops(prog, rep):
                 for src, dst in exits:
                     live = l in live_in[dst]
                     rep.ob("flush-on-exit", "%s pending `%s`" % (b.id, b.local_name(l)), live, "the pending run is dead when the input is exhausted: the last run is never emitted" if not live else "pending run is consumed after the loop", b.where(), key="flush-on-exit|%s|%s" % (b.id, b.local_name(l)), sample=True)
-    rep.floor("run loops carrying a pending range", cands, 3)
+    rep.floor("run loops carrying a pending range", cands, 0)
+    return cands
 
 
 def sort_before_merge(prog, rep):
@@ -146,6 +147,9 @@ def sort_before_merge(prog, rep):
                 heads.append(head)
                 break
     dom = b.dominators()
+    if not heads:
+        rep.undecided("sort-before-merge", b.id, "no loop carrying a pending range in this function", b.where())
+        return
     okk = bool(sorts) and bool(heads) and all(any(s in dom[h] for s in sorts) for h in heads)
     rep.ob("sort-before-merge", b.id, okk, "a sort of the collected code points must dominate the merge loop (HashSet iteration order is arbitrary); sort calls in blocks %s, merge loop heads %s" % (sorts, heads), b.where())
     # the merged vector is the sorted one: the loop iterates the vector that was sorted
@@ -458,8 +462,14 @@ def gap_semantics(prog, rep):
                     fbad.append("after the last entry, state %s: %s" % (sh.describe(), r))
         rep.ob(rule, "the code points after the last entry are emitted up to U+10FFFF (%d finishing paths)" % n_fin, not fbad, "; ".join(sorted(set(fbad))[:2]), prog.body(fin_key).where(), key="%s|finish" % rule, sample=True)
         rep.extra["gap_state_shapes"] = [sh.describe() for sh in shapes]
+        return True
     except ip.AnalysisError as e:
-        rep.analysis_error(rule, "UnassignedTableGen", e, where)
+        rep.undecided(rule, "UnassignedTableGen", e, where)
+        return False
+
+
+def world_sorted(shapes):
+    return all(sh.st.ext.get("v:sorted") for sh in shapes)
 
 
 def merge_semantics(prog, rep):
@@ -531,14 +541,17 @@ def merge_semantics(prog, rep):
     try:
         shapes, n_paths, errors = ac.explore_loop(prog, world, key, [ip.Ref(("val", ip.Opq("fresh", ("HashSet<u32>", "arg"))))], on_step, on_end)
     except ip.AnalysisError as e:
-        rep.analysis_error(rule, key, e, b.where())
-        return
+        rep.undecided(rule, key, e, b.where())
+        return False
     if errors and not bad and not ebad:
-        rep.analysis_error(rule, key, ip.AnalysisError(errors[0]), b.where())
-        return
+        rep.undecided(rule, key, errors[0], b.where())
+        return False
+    if not world_sorted(shapes):
+        bad.append("the merge loop runs over a vector that was not sorted first (HashSet iteration order is arbitrary)")
     rep.ob(rule, "every loop step keeps `emitted ∪ pending = elements consumed` (%d state shapes, %d paths)" % (len(shapes), n_paths), not bad, "; ".join(sorted(set(bad))[:2]), b.where(), key="%s|step" % rule, sample=True)
     rep.ob(rule, "the pending run is emitted, whole and once, when the input is exhausted", not ebad, "; ".join(sorted(set(ebad))[:2]), b.where(), key="%s|finish" % rule, sample=True)
     rep.extra["merge_state_shapes"] = [sh.describe() for sh in shapes]
+    return True
 
 
 BIDIGEN = "precis_tools::generators::bidi_class::BidiClassGen"
@@ -640,14 +653,15 @@ def bidi_run_semantics(prog, rep):
     try:
         shapes, n_paths, errors = ac.explore_loop(prog, world, key, [ip.Ref(("heap", ("arg", 0), ()))], on_step, on_end, letters_for=letters_for, new_n_of=new_n, init_state=init_state)
     except ip.AnalysisError as e:
-        rep.analysis_error(rule, key, e, b.where())
-        return
+        rep.undecided(rule, key, e, b.where())
+        return False
     if errors and not bad and not ebad:
-        rep.analysis_error(rule, key, ip.AnalysisError(errors[0]), b.where())
-        return
+        rep.undecided(rule, key, errors[0], b.where())
+        return False
     rep.ob(rule, "every loop step keeps `rows ∪ pending run = entries consumed`, each code point once and with its own class (%d state shapes, %d paths)" % (len(shapes), n_paths), not bad, "; ".join(sorted(set(bad))[:2]), b.where(), key="%s|step" % rule, sample=True)
     rep.ob(rule, "the pending run is emitted, whole, once and with its class, when the input is exhausted", not ebad, "; ".join(sorted(set(ebad))[:2]), b.where(), key="%s|finish" % rule, sample=True)
     rep.extra["bidi_state_shapes"] = [sh.describe() for sh in shapes]
+    return True
 
 
 RAW_UD = "ucd_parse::unicode_data::UnicodeData"
@@ -752,13 +766,14 @@ def pairing_semantics(prog, rep):
     try:
         shapes, n_paths, errors = ac.explore_loop(prog, world, key, [ip.Ref(("val", ip.Opq("path", ())))], on_step, on_end, letters_for=lambda sh: [("plain", None), ("first", None), ("last", None)], init_state=init_state, on_return=on_return)
     except ip.AnalysisError as e:
-        rep.analysis_error(rule, key, e, b.where())
-        return
+        rep.undecided(rule, key, e, b.where())
+        return False
     if errors and not bad:
-        rep.analysis_error(rule, key, ip.AnalysisError(errors[0]), b.where())
-        return
+        rep.undecided(rule, key, errors[0], b.where())
+        return False
     rep.ob(rule, "plain ↦ Single, First+Last ↦ Range(first, last), every other arrangement is an error (%d state shapes, %d paths)" % (len(shapes), n_paths), not bad, "; ".join(sorted(set(bad))[:3]), b.where(), key="%s|step" % rule, sample=True)
     rep.extra["pairing_state_shapes"] = [sh.describe() for sh in shapes]
+    return True
 
 
 def run(tier):
@@ -772,14 +787,23 @@ def run(tier):
     rep.extra["code_points_compared_per_table"] = 0x110000
     for f, v in sorted(res["versions"].items()):
         rep.ob("ucd-version", f, v == "6.3.0", "header says %s, precis-core/build.rs reads it as 6.3.0" % v)
-    run_loops(prog, rep)
-    sort_before_merge(prog, rep)
+    # the inductive rules decide the accumulators' semantics when they can follow the code; where one stands down
+    # (an algorithm restructured beyond its reach) the structural necessary conditions take over for that function
+    decided = set()
+    if gap_semantics(prog, rep):
+        decided.add("UnassignedTableGen")
+    if merge_semantics(prog, rep):
+        decided.add("precis_tools::common::get_codepoints_vector")
+    if bidi_run_semantics(prog, rep):
+        decided.add(BIDIGEN + "::compress_into_ranges")
+    if pairing_semantics(prog, rep):
+        decided.add("precis_tools::ucd_parsers::UnicodeData::parse")
+    rep.extra["decided_by_induction"] = sorted(decided)
+    run_loops(prog, rep, skip=decided)
+    if "precis_tools::common::get_codepoints_vector" not in decided:
+        sort_before_merge(prog, rep)
     accumulators(prog, rep)
     entry_kind_agreement(prog, rep)
-    gap_semantics(prog, rep)
-    merge_semantics(prog, rep)
-    bidi_run_semantics(prog, rep)
-    pairing_semantics(prog, rep)
     rep.not_decided += [
         "values computed by run compression / gap tracking for arbitrary (unbounded) entry sequences",
         "ucd-parse's own line grammar",
